@@ -8,7 +8,7 @@ From LZ4V Require Import Gen.Consts Spec.BlockSpec Spec.FrameSpec Model.FrameCSi
 From LZ4V Require Import Proofs.FileProofs Proofs.FileInstProofs.
 From LZ4V Require Import Proofs.FileDecInst Proofs.FileCompInst.
 From LZ4V Require Model.FrameC Proofs.FrameCTheorems.
-From LZ4V Require Import Proofs.BlkInst Proofs.BlkFrameInst.
+From LZ4V Require Import Proofs.BlkInst Proofs.BlkFrameInst Proofs.BlkInstLinked.
 Import ListNotations.
 
 Theorem roundtrip_indep_unconditional : forall sf sm sh, states_ok sf sm sh ->
@@ -26,4 +26,20 @@ Proof.
   exact (roundtrip_discharged (blk_indep 0 sf sm sh) (indep_contract 0 sf sm sh Hst) (blk_indep_bytes 0 sf sm sh) (Some p) mw bufs sizes junk).
 Qed.
 
+(* any block mode (lz4file.c's default preferences are LINKED blocks): LZ4_compress_fast_continue, Proofs.BlkInstLinked *)
+Theorem roundtrip_stream_unconditional : forall st, (forall n, lorc_ok (st n)) ->
+  forall (po : option prefs) (mw : nat) (bufs : list (list byte)) (sizes : list nat) (junk : list byte),
+    maxWrite_of po = Some mw -> FileProofs.csize_ok po (concat bufs) -> prefs_wf po ->
+    (Z.of_nat (length (concat bufs)) < FrameC.U64)%Z -> bytes_ok (concat bufs) = true ->
+    exists file : list byte,
+      write_session FrameC.cctx FrameC.cctx_zero fc_begin (fc_update (blk_fast_linked st 0)) (fc_end (blk_fast_linked st 0)) po bufs
+        = (FOk (map (fun b => FOk (length b)) bufs), file) /\
+      frame_ok file (concat bufs) /\
+      read_session dstate dctx_init fd_info fd_dec true junk file sizes = FOk (chop (concat bufs) sizes).
+Proof.
+  intros st Hst.
+  exact (roundtrip_discharged (blk_fast_linked st 0) (blk_fast_linked_contract st 0 Hst) (blk_fast_linked_bytes st 0)).
+Qed.
+
 Print Assumptions roundtrip_indep_unconditional.
+Print Assumptions roundtrip_stream_unconditional.
